@@ -1,6 +1,6 @@
 import DryocVerif.Proofs.ProtectedProt
 /-
-The state invariant `Inv` (and the lock-tightness `Tight`) of the harness model
+The state invariant `InvK` (and the lock-tightness `Tight`) of the harness model
 and their preservation by every token.
 -/
 namespace DryocVerif.Proofs.Protected
@@ -19,8 +19,30 @@ def blkOf (o : Obj) : Blk := ⟨o.v, stPerm o.st, stLocked o.st⟩
 /-- blocks of the live slots -/
 def blks (sl : List Slot) : List Blk := (sl.filter fun s => !s.gone).map fun s => blkOf s.o
 
-/-- the invariant of the whole model state -/
-def Inv (c : Cfg) (s : State) : Prop := GoodL c.P s.m.k (blks s.slots)
+/-- the PAGE part of the invariant: the kernel agrees with the TYPE states of the live slots -/
+def InvK (c : Cfg) (s : State) : Prop := GoodL c.P s.m.k (blks s.slots)
+
+/-- the runtime record of a live `Protected` slot equals its type-level state -/
+def SlotRec (sl : Slot) : Prop :=
+  sl.gone = false → ∀ lm pm, sl.o.st = .prot lm pm → sl.o.rcd = (lm, pm)
+
+/-- the RECORD part of the invariant: every live `Protected` region's runtime record (`d.lm`, `d.pm`, the data
+`Drop` / `Zeroize` consult) equals its type-level state -/
+def RecOK (s : State) : Prop := ∀ sl ∈ s.slots, SlotRec sl
+
+/-- the invariant of the whole model state: pages agree with the type states (`k`), and the runtime records agree
+with the type states (`rcd`) -/
+structure Inv (c : Cfg) (s : State) : Prop where
+  k : InvK c s
+  rcd : RecOK s
+
+theorem Inv.start {c : Cfg} {s : State} (h : Inv c s) : startPage ≤ s.m.k.brk := h.k.start
+theorem Inv.fresh {c : Cfg} {s : State} (h : Inv c s) :
+    ∀ p, s.m.k.brk ≤ p → s.m.k.perm p = .rw ∧ s.m.k.locked p = false := h.k.fresh
+theorem Inv.ok {c : Cfg} {s : State} (h : Inv c s) : ∀ b ∈ blks s.slots, BlockOK c.P s.m.k b := h.k.ok
+theorem Inv.disj {c : Cfg} {s : State} (h : Inv c s) : (blks s.slots).Pairwise (Disj c.P) := h.k.disj
+theorem Inv.outside {c : Cfg} {s : State} (h : Inv c s) :
+    ∀ p, (∀ b ∈ blks s.slots, ¬ inBlock c.P b.v p) → s.m.k.perm p = .rw := h.k.outside
 
 /-- every locked page belongs to a live block -/
 def Tight (c : Cfg) (s : State) : Prop := TightL c.P s.m.k (blks s.slots)
@@ -46,6 +68,9 @@ theorem blks_mid_live {sl : Slot} (h : sl.gone = false) (l1 l2 : List Slot) :
 theorem blks_mid_gone {sl : Slot} (h : sl.gone = true) (l1 l2 : List Slot) :
     blks (l1 ++ sl :: l2) = blks l1 ++ blks l2 := by
   rw [blks_append, blks_cons_gone h]
+
+theorem blkOf_congr {o o' : Obj} (h1 : o'.st = o.st) (h2 : o'.v = o.v) : blkOf o' = blkOf o := by
+  unfold blkOf; rw [h1, h2]
 
 theorem blks_push (l : List Slot) (o : Obj) (r : Bool) :
     (blks (l ++ [⟨false, o, r⟩])).Perm (blkOf o :: blks l) := by
@@ -92,14 +117,14 @@ theorem withLive_elim {Q : Res × State → Prop} (s : State) (i : Nat) (g : Res
   · simp only [hgone, if_true]; exact hg
   · simp only [hgone]; exact hf sl l1 l2 h1 h2 (by simpa using hgone)
 
-/-! ### moving between `Inv` and the head-of-list form -/
+/-! ### moving between `InvK` and the head-of-list form -/
 
 section transfer
 variable {c : Cfg} {s : State} {sl : Slot} {l1 l2 : List Slot}
 
-theorem good_head (hs : s.slots = l1 ++ sl :: l2) (hg : sl.gone = false) (h : Inv c s) :
+theorem good_head (hs : s.slots = l1 ++ sl :: l2) (hg : sl.gone = false) (h : InvK c s) :
     GoodL c.P s.m.k (blkOf sl.o :: (blks l1 ++ blks l2)) := by
-  unfold Inv at h; rw [hs] at h
+  unfold InvK at h; rw [hs] at h
   exact h.perm (blks_mid_live hg l1 l2)
 
 theorem tight_head (hs : s.slots = l1 ++ sl :: l2) (hg : sl.gone = false) (h : Tight c s) :
@@ -110,8 +135,8 @@ theorem tight_head (hs : s.slots = l1 ++ sl :: l2) (hg : sl.gone = false) (h : T
 theorem inv_set_live (hs : s.slots = l1 ++ sl :: l2) {i : Nat} (hi : l1.length = i) {m' : Mach}
     {sl' : Slot} (hg : sl'.gone = false)
     (h : GoodL c.P m'.k (blkOf sl'.o :: (blks l1 ++ blks l2))) :
-    Inv c (setSlot s m' i sl') := by
-  unfold Inv setSlot
+    InvK c (setSlot s m' i sl') := by
+  unfold InvK setSlot
   simp only [hs, ← hi, set_split]
   exact h.perm (blks_mid_live hg l1 l2).symm
 
@@ -126,8 +151,8 @@ theorem tight_set_live (hs : s.slots = l1 ++ sl :: l2) {i : Nat} (hi : l1.length
 theorem inv_set_gone (hs : s.slots = l1 ++ sl :: l2) {i : Nat} (hi : l1.length = i) {m' : Mach}
     {sl' : Slot} (hg : sl'.gone = true)
     (h : GoodL c.P m'.k (blks l1 ++ blks l2)) :
-    Inv c (setSlot s m' i sl') := by
-  unfold Inv setSlot
+    InvK c (setSlot s m' i sl') := by
+  unfold InvK setSlot
   simp only [hs, ← hi, set_split, blks_mid_gone hg]
   exact h
 
@@ -139,13 +164,13 @@ theorem tight_set_gone (hs : s.slots = l1 ++ sl :: l2) {i : Nat} (hi : l1.length
   simp only [hs, ← hi, set_split, blks_mid_gone hg]
   exact h
 
-theorem inv_push {m' : Mach} {st : St} {v : PVec} {r : Bool}
-    (h : GoodL c.P m'.k (blkOf ⟨st, v⟩ :: blks s.slots)) : Inv c (push s m' st v r) := by
-  unfold Inv push
+theorem inv_push {m' : Mach} {st : St} {v : PVec} {r : Bool} {rc : LM × PM}
+    (h : GoodL c.P m'.k (blkOf ⟨st, v, rc⟩ :: blks s.slots)) : InvK c (push s m' st v r rc) := by
+  unfold InvK push
   exact h.perm (blks_push _ _ _).symm
 
-theorem tight_push {m' : Mach} {st : St} {v : PVec} {r : Bool}
-    (h : TightL c.P m'.k (blkOf ⟨st, v⟩ :: blks s.slots)) : Tight c (push s m' st v r) := by
+theorem tight_push {m' : Mach} {st : St} {v : PVec} {r : Bool} {rc : LM × PM}
+    (h : TightL c.P m'.k (blkOf ⟨st, v, rc⟩ :: blks s.slots)) : Tight c (push s m' st v r rc) := by
   unfold Tight push
   exact h.perm (blks_push _ _ _).symm
 
